@@ -733,3 +733,6 @@ for _k in MANIFEST_TEXT:
 
 PROPS["C16"]["required_theorems"] += ["Crdt.C16.map_second_key_always_rejected", "Crdt.C16.map_second_key_error"]
 PROPS["C16"]["explanation"] += " The defect F7 in general form: at EVERY Map state the API-built update of a key the replica does not hold, by an actor that has issued any update before, is rejected at its origin with SourceOrder(a, 1..clock[a]+1) (map_second_key_always_rejected, map_second_key_error)."
+
+PROPS["C17"]["required_theorems"] += ["Crdt.C17.add_all_always_flagged"]
+PROPS["C17"]["explanation"] += " The defect F8 in general form: at every set state without pending removes, add_all of two different members with the actor's next dot yields a state validate_merge rejects against itself (add_all_always_flagged)."
